@@ -115,12 +115,12 @@ def freeEnv : DEnv J J J where
   depth := 8
 
 example : (freeEnv).Inj :=
-  ⟨⟨fun _ _ h => h, fun _ _ h => h, fun _ _ h => J.str.inj h, fun _ _ h => h, fun _ _ h => h⟩, fun _ _ h => h⟩
+  ⟨⟨fun _ _ h => h, fun _ _ _ _ h => h, fun _ _ h => J.str.inj h, fun _ _ h => h, fun _ _ h => h⟩, fun _ _ h => h⟩
 
 /-- the theorems apply to it (equality of JSON values is decidable classically) -/
 noncomputable example (fs0 : FS) (ops : List Op) (c : Config) :=
   @C07_every_build_current J J J (List (String × String)) (Classical.typeDecidableEq J) (Classical.typeDecidableEq J)
-    freeEnv ⟨⟨fun _ _ h => h, fun _ _ h => h, fun _ _ h => J.str.inj h, fun _ _ h => h, fun _ _ h => h⟩, fun _ _ h => h⟩
+    freeEnv ⟨⟨fun _ _ h => h, fun _ _ _ _ h => h, fun _ _ h => J.str.inj h, fun _ _ h => h, fun _ _ h => h⟩, fun _ _ h => h⟩
     (fun _ x => x) fs0 ops c
 
 end Occa.DepHash.C07
